@@ -49,7 +49,13 @@ def sigKey : Option Sig → String
   | some (.multi _ es) => "m[" ++ joinWith "," (es.map (fun e => s!"{e.claimed}:{e.bytes}")) ++ "]"
   | some (.bls a j _) => "b[" ++ joinWith "," (sortStrs (a.map atomKey)) ++ "|" ++ joinWith "," (sortStrs (j.map toString)) ++ "]"
 
-def qcKey (q : QC) : String := s!"{q.view}:{q.hash}:{sigKey q.sig}"
+/-- canonical key of `QuorumCert.ToBytes()`: view, hash and — since `fix:` 9a59775, when there is a signature —
+the participants followed by the signature bytes (before: the signature bytes only, the same for every
+attribution of a BLS aggregate, and nothing at all for an empty multi-signature) -/
+def qcKey (q : QC) : String :=
+  match q.sig with
+  | none => s!"{q.view}:{q.hash}:nil"
+  | some sg => s!"{q.view}:{q.hash}:{sg.participants.length}[{joinWith "," (sg.participants.map toString)}]{sigKey q.sig}"
 
 def tmoKey (id v : Nat) (qc : Option QC) : Msg :=
   s!"tmo:{id}:{v}:" ++ (match qc with | none => "-" | some q => qcKey q)
